@@ -29,7 +29,10 @@ def expand_macros(circuit, preserve_definitions=False):
     """
 
     visitor = MacroExpander(preserve_definitions=preserve_definitions)
-    return visitor.visit(circuit)
+    try:
+        return visitor.visit(circuit)
+    except RecursionError:
+        raise JaqalError("Macros are nested too deeply to expand") from None
 
 
 class MacroExpander(Visitor):
